@@ -168,6 +168,32 @@ func (x *Exec) libraryModel(st *State, name string, args []Val, sig *types.Signa
 				return x.freshResults(st, sig), true
 			}
 		}
+	case "encoding/json.Marshal":
+		// the text produced for a struct value of a named type T is json_T(value) (a spec function
+		// declared by the contracts: `uninterp json_T(a T) string`); nothing else is assumed about it
+		if len(args) == 1 && args[0].Inner != nil && args[0].Inner.Ty != nil {
+			if nt, ok := args[0].Inner.Ty.(*types.Named); ok && isStruct(nt) {
+				fn := "u_json_" + nt.Obj().Name()
+				if x.ctx.hasDecl(fn) {
+					x.trusted["model of encoding/json.Marshal: output text for "+nt.Obj().Name()+" is the spec function json_"+nt.Obj().Name()+" of the value"]++
+					oa := x.heap(st, "$alloc", "Int")
+					na := x.havocHeap(st, "$alloc", "Int")
+					st.assume(fmt.Sprintf("(>= %s %s)", na, oa))
+					res := x.freshResults(st, sig)
+					st.assume(or(eq(res[1].T, "(mk_iface 0 0)"), fmt.Sprintf("(>= (i_val %s) %s)", res[1].T, oa))) // a new error value
+					if onlyScalarFields(nt) {
+						// strings, booleans and integers always encode: Marshal cannot fail for this type
+						st.assume(eq(res[1].T, "(mk_iface 0 0)"))
+					}
+					byteT := sig.Results().At(0).Type().Underlying().(*types.Slice).Elem()
+					hn, hs := x.elemHeap(byteT)
+					sfn := "str_of_" + mangle(x.ctx.sortOf(byteT)) + "s"
+					x.ctx.addDecl(sfn, fmt.Sprintf("(declare-fun %s ((Array Int %s) Int Int) Str)", sfn, x.ctx.sortOf(byteT)))
+					st.assume(implies(eq(res[1].T, "(mk_iface 0 0)"), eq(app(sfn, sel(x.heap(st, hn, hs), "(s_arr "+res[0].T+")"), "(s_off "+res[0].T+")", "(s_len "+res[0].T+")"), app(fn, args[0].Inner.T))))
+					return res, true
+				}
+			}
+		}
 	case "sort.Sort":
 		// permutes the elements of the slice inside the sort.Interface value
 		if len(args) == 1 && args[0].Inner != nil && args[0].Inner.Ty != nil {
@@ -573,13 +599,7 @@ func (x *Exec) typeLevelModifies(pkg *types.Package, item string, tgt *modTarget
 				t = tnm.Type()
 			}
 		} else if j := strings.Index(tn, "."); j > 0 {
-			if p := x.L.findPkgByName(pkg, tn[:j]); p != nil {
-				if o := p.Scope().Lookup(tn[j+1:]); o != nil {
-					if tnm, isT := o.(*types.TypeName); isT {
-						t = tnm.Type()
-					}
-				}
-			}
+			t = x.L.findTypeQualified(pkg, tn[:j], tn[j+1:])
 		}
 		if t == nil {
 			return
@@ -1007,4 +1027,19 @@ func (x *Exec) immutableCheck(st *State, ins ssa.Instruction, l *Loc) {
 			}
 		}
 	}
+}
+
+
+func onlyScalarFields(t types.Type) bool {
+	st, ok := t.Underlying().(*types.Struct)
+	if !ok {
+		return false
+	}
+	for i := 0; i < st.NumFields(); i++ {
+		b, ok := st.Field(i).Type().Underlying().(*types.Basic)
+		if !ok || b.Info()&(types.IsString|types.IsBoolean|types.IsInteger) == 0 {
+			return false
+		}
+	}
+	return true
 }
